@@ -2,6 +2,7 @@ package rules
 
 import (
 	"go/ast"
+	"go/constant"
 	"go/token"
 	"go/types"
 	"strings"
@@ -16,7 +17,7 @@ const (
 
 func init() {
 	register("C04", "other", "T6 WhoMayCall/single producer, T8 DecisionTable (loop shape, normalised), T15 ConstRelation (cap 100), T4 GuardedBy, T21 InjectiveEncoding",
-		"Decides the structure that makes building and processing agree on frames: one function (calcFrameIdx) produces both the frame assigned by Build and the frame compared with the claimed one in checkAndSaveEvent, and its only quorum test is forklessCausedByQuorumOn over the stored roots of that frame; its frame search (decided on the CFG, whatever loop form is used) starts at the self-parent's frame, alternates one quorum test with one step by one, evaluates the test only below the bound and ends only when the bound is reached or the test failed; on every build-mode path the bound read by the search is the self-parent's frame plus the constant 100 and on every check-mode path it is the claimed frame (reaching definitions per mode, so the Build cap cannot clamp processing), and a result of 0 becomes 1; a differing claimed frame leads only to ErrWrongFrame and the root is registered only afterwards; and the answer cannot depend on which events were built before: every built event is indexed under a temporary ID freshly sampled in Build (the SetID of a sample dominates the indexing and the frame computation) and that ID is an injective fixed-width function of a strictly increasing counter, or every ID-keyed cache that Build can fill is purged when the unflushed index data is dropped. Equality of ForklessCause with the graph definition is not decided.",
+		"Decides the structure that makes building and processing agree on frames: one function (calcFrameIdx) produces both the frame assigned by Build and the frame compared with the claimed one in checkAndSaveEvent, and its only quorum test is forklessCausedByQuorumOn over the stored roots of that frame; its frame search (decided on the CFG, whatever loop form is used) starts at the self-parent's frame, alternates one quorum test with one step by one, evaluates the test only below the bound and ends only when the bound is reached or the test failed; on every build-mode path the bound read by the search is the self-parent's frame plus the constant 100 and on every check-mode path it is the claimed frame (reaching definitions per mode, so the Build cap cannot clamp processing), and a result of 0 becomes 1; a differing claimed frame leads only to ErrWrongFrame and the root is registered only afterwards; and the answer cannot depend on which events were built before: every built event is indexed under a temporary ID freshly sampled in Build (the SetID of a sample dominates the indexing and the frame computation) and that ID is an injective fixed-width function of a strictly increasing counter that nothing outside the increment restarts unless the restart is paired with an unconditional purge of the pair cache (directly, in an always-purging callee, or in every module implementation of DagIndexer.Reset), or every ID-keyed cache that Build can fill is purged when the unflushed index data is dropped. Equality of ForklessCause with the graph definition is not decided.",
 		[]string{"math/big FillBytes / encoding/binary fixed-width contracts", "the event source returns the self-parent that was processed"},
 		runC04)
 }
@@ -132,6 +133,8 @@ func checkTmpID(c *core.Ctx) {
 	default:
 		c.Undecided("temporary IDs never repeat", "T21 InjectiveEncoding", pos, why)
 	}
+	// (d) … and nobody moves the counter back while answers for earlier temporary IDs can still be cached
+	c04CounterRestarts(c, smp, purgedOnDrop)
 }
 
 func runC04(c *core.Ctx) {
@@ -207,28 +210,50 @@ func runC04(c *core.Ctx) {
 		// forklessCausedByQuorumOn: counts creators of the frame's roots that forkless-cause... e is forkless caused by root
 		fq := c.Fn(ordT + ".forklessCausedByQuorumOn")
 		okQ := false
+		// the first argument is the event's ID and the second a root's ID; either may have been read into a
+		// local first (event getters are pure), so single-definition locals are looked through
 		for _, cs := range fq.CallsTo("abft/dagidx.ForklessCause.ForklessCause") {
 			if len(cs.Call.Args) == 2 {
-				a0, isC := ast.Unparen(cs.Call.Args[0]).(*ast.CallExpr)
-				if isC && methodNamed(calleeName(fq, a0), "ID") {
-					if sel, ok := a0.Fun.(*ast.SelectorExpr); ok && varOf(fq, sel.X) == fq.Param(0) {
-						_, pth := fieldPath(fq, cs.Call.Args[1])
-						if len(pth) >= 1 && pth[len(pth)-1] == "abft/election.RootAndSlot.ID" {
-							okQ = true
-						}
+				if a0 := c04MethodOn(fq, cs.Call.Args[0], "ID", fq.Param(0)); a0 != nil && len(a0.Args) == 0 {
+					_, pth := fieldPath(fq, resolveLocal(fq, cs.Call.Args[1]))
+					if len(pth) >= 1 && pth[len(pth)-1] == "abft/election.RootAndSlot.ID" {
+						okQ = true
 					}
 				}
 			}
 		}
 		c.Check(okQ, "quorum test asks ForklessCause(event, root)", "provenance", fq.Pos(), "ForklessCause(e.ID(), root.ID) over GetFrameRoots(f)", "the quorum test does not ask whether the event is forkless-caused by the frame's roots")
-		okRet := false
-		for _, rp := range fq.ReturnPoints() {
-			r := rp.Node().(*ast.ReturnStmt)
-			if len(r.Results) == 1 && isCallTo(fq, r.Results[0], "inter/pos.WeightCounter.HasQuorum") != nil {
-				okRet = true
-			}
+		// every result is the counter's HasQuorum(): returned directly (or through a local), or the constant
+		// true on a path that has just seen HasQuorum() true (counting only adds weight, so it stays true)
+		isHasQ := func(x ast.Expr) bool {
+			return isCallTo(fq, resolveLocal(fq, x), "inter/pos.WeightCounter.HasQuorum") != nil
 		}
-		c.Check(okRet, "quorum test returns HasQuorum()", "provenance", fq.Pos(), "the result is the weight counter's HasQuorum()", "the result is not the counter's quorum test")
+		sawQuorum := func(ft core.Fact) bool {
+			cm, k := core.NormCmp(ft)
+			return k && cm.R == nil && cm.Op == token.EQL && isHasQ(cm.L)
+		}
+		okRet, nDirect := true, 0
+		posRet, whyRet := fq.Pos(), "the result is not the counter's quorum test"
+		for _, rp := range fq.ReturnPoints() {
+			r, _ := rp.Node().(*ast.ReturnStmt)
+			if r == nil || len(r.Results) != 1 {
+				okRet, posRet = false, posOf(rp)
+				continue
+			}
+			if isHasQ(r.Results[0]) {
+				nDirect++
+				continue
+			}
+			if cv, isConst := core.ConstVal(fq.Info(), r.Results[0]); isConst && cv.Kind() == constant.Bool && constant.BoolVal(cv) {
+				g, wit := fq.GuardedBy(rp, sawQuorum)
+				if g {
+					continue
+				}
+				whyRet = "true is returned on a path that has not seen HasQuorum() true: " + fq.DescribePath(wit)
+			}
+			okRet, posRet = false, r.Pos()
+		}
+		c.Check(okRet && nDirect >= 1, "quorum test returns HasQuorum()", "provenance", posRet, "every result is the weight counter's HasQuorum() (or true right after it was seen true)", whyRet)
 	})
 
 	c.Clause("C04.loop", func() { c04Loop(c) })
